@@ -101,7 +101,8 @@ class C12(Check):
             out.append({"kind": kind, "cls": cls, "target": target, "children": children, "clear": clear,
                         "geom": {"n": 4, "g": [1, -2, 3, 0, 5, -4, 2, 7, 1, 3]}, "vals": [3, None, -2, 8, 1, 4],
                         "edits": (["dh_remove", "rename"] if kind == "dhgroup" else
-                                  ["values_rw", "rename"] if target != "same" else ["metadata", "values_rw"])})
+                                  ["values_rw", "metadata_nested", "rename"] if target != "same"
+                                  else ["metadata_nested", "values_rw"])})
             if kind == "dhgroup" and children:
                 # the source is first read AFTER the copy was edited (values cached by an earlier read would hide a
                 # stale shared index)
@@ -117,7 +118,8 @@ class C12(Check):
             "children": st.booleans(), "clear": st.booleans(),
             "geom": st.fixed_dictionaries({"n": st.integers(2, 6), "g": st.lists(st.integers(-9, 9), min_size=3, max_size=10)}),
             "vals": st.lists(st.one_of(st.integers(-20, 20), st.none()), min_size=0, max_size=10),
-            "edits": st.lists(st.sampled_from(["values", "values_rw", "vertices", "metadata", "rename", "pg", "dh_remove"]), max_size=3),
+            "edits": st.lists(st.sampled_from(["values", "values_rw", "vertices", "metadata", "metadata_nested", "rename", "pg",
+                                               "dh_remove"]), max_size=3),
             "source_mode": st.sampled_from(["r+", "r+", "r"]), "defer_source_read": st.booleans(),
         }).map(lambda d: {**{k: v for k, v in d.items() if k != "kind_cls"}, "kind": d["kind_cls"][0], "cls": d["kind_cls"][1]})
 
@@ -151,7 +153,7 @@ class C12(Check):
                     pass
         if "survey" not in cls.__module__ and "surveys" not in cls.__module__:
             try:
-                obj.metadata = {"note": "m", "n": 3}
+                obj.metadata = {"note": "m", "n": 3, "Survey": {"line": 1, "deep": {"x": [1, 2]}}}
             except Exception:
                 pass
         return obj
@@ -167,7 +169,7 @@ class C12(Check):
         if kind == "group":
             grp = F.get_class(cls).create(ws, parent=home, name="subject")
             try:
-                grp.metadata = {"note": "g"}
+                grp.metadata = {"note": "g", "options": {"param": {"value": 10}}}
             except Exception:
                 pass
             sub = ContainerGroup.create(ws, parent=grp, name="inner")
@@ -188,7 +190,7 @@ class C12(Check):
         for k in range(2):
             hole = Drillhole.create(ws, parent=grp, name=f"h{k}", collar=[float(k), 0.0, 0.0],
                                     surveys=np.asarray([[0.0, 0.0, -90.0], [10.0, 45.0, -80.0]]))
-            hole.add_data({"a": {"depth": np.asarray([0.0, 1.0, 2.0]), "values": np.asarray([1.0 + k, 2.0, np.nan])}})
+            hole.add_data({"a/x": {"depth": np.asarray([0.0, 1.0, 2.0]), "values": np.asarray([1.0 + k, 2.0, np.nan])}})
             hole.add_data({"b": {"from-to": np.asarray([[0.0, 1.0], [1.0, 2.5]]), "values": np.asarray([5 + k, 6], dtype="int32")}})
         return home, grp
 
@@ -266,7 +268,7 @@ class C12(Check):
                     {"name": f"h{k}", "collar": canon_value(np.asarray((float(k), 0.0, 0.0), dtype=[("x", float), ("y", float), ("z", float)])),
                      "surveys": canon_value(np.asarray([[0.0, 0.0, -90.0], [10.0, 45.0, -80.0]])),
                      "data": {"DEPTH": canon_value(np.asarray([0.0, 1.0, 2.0])), "FROM": canon_value(np.asarray([0.0, 1.0])),
-                              "TO": canon_value(np.asarray([1.0, 2.5])), "a": canon_value(np.asarray([1.0 + k, 2.0, np.nan])),
+                              "TO": canon_value(np.asarray([1.0, 2.5])), "a/x": canon_value(np.asarray([1.0 + k, 2.0, np.nan])),
                               "b": canon_value(np.asarray([5 + k, 6], dtype="int32"))},
                      "pgs": ["Interval_0", "depth_0"]} for k in range(2)]}
             else:
@@ -430,6 +432,21 @@ class C12(Check):
                     return None
                 new.metadata = {"edited": 1}
                 return True
+            if edit == "metadata_nested":
+                # read the dictionary, change a value below the top level, assign it back
+                md = getattr(new, "metadata", None)
+                if p["kind"] in ("data", "dhgroup") or not isinstance(md, dict):
+                    return None
+                inner = next((v for v in md.values() if isinstance(v, dict)), None)
+                if inner is None:
+                    return None
+                key = sorted(inner, key=str)[0]
+                if isinstance(inner[key], dict):
+                    inner = inner[key]
+                    key = sorted(inner, key=str)[0]
+                inner[key] = 99 if not isinstance(inner[key], list) else list(inner[key]) + [99]
+                new.metadata = md
+                return True
             if edit == "vertices":
                 verts = getattr(new, "vertices", None)
                 if p["kind"] != "object" or verts is None or "Drillhole" in type(new).__name__ or "GeoImage" in type(new).__name__:
@@ -459,7 +476,7 @@ class C12(Check):
                 holes = [c for c in new.children if hasattr(c, "surveys")]
                 if not holes:
                     return None
-                data = holes[0].get_data("a")
+                data = holes[0].get_data("a/x")
                 if not data:
                     return None
                 new.workspace.remove_entity(data[0])
